@@ -52,6 +52,17 @@ def main(argv):
         if hasattr(wl, "setup"):
             wl.setup(ctx)
         S.prop = prop
+        if shard % 2 == 1:
+            # an application with debug logging switched on: what is logged is nobody's business, what is answered is
+            import logging as _logging
+
+            lg = _logging.getLogger("curies")
+            lg.addHandler(_logging.NullHandler())
+            lg.setLevel(_logging.DEBUG)
+            _logging.disable(_logging.NOTSET)  # (the harness silences logging process-wide elsewhere; not in these shards)
+            _logging.getLogger().addHandler(_logging.NullHandler())
+            lg.propagate = False
+            S.counters["env:debug-logging-enabled"] += 1
         cases = [only] if only is not None else range(shard, total, nshards)
         n = 0
         for g in cases:
